@@ -1,11 +1,13 @@
 SPECIFICATION PartOnly
 CONSTANTS
   MaxT = 64
+  DevJoinLastWins = FALSE
   UseLock = TRUE
   Gs = {1,2,3,4,5,6,7,8,9,10,11,12,13,14,15,16,17,18,19,20,21,22,23,24,25,26,27,28,29,30,31,32,33,34,35,36,37,38,39,40,47,48,49,63,64,65,96,127,128,129,200,255,256,257}
   Ns = {1,2,3,4,5,6,7,8,9,10,11,12,13,14,15,16,17,24,31,32,33,48,64}
   Flexes = {1, 2, 4, 8, 16, 32, 64}
   Kinds = {1}
+  FailModes = {"none"}
   BadSets = {{}}
 INVARIANT PartitionExact
 CHECK_DEADLOCK FALSE
